@@ -688,7 +688,11 @@ def run(ctx):
             n = rng.randint(-lim if kind == "dms" else 0, lim)
             jobs.append((kind, n, "np.float32"))
     jobs = sorted(set(jobs))
-    fmt_recs = [r for r in _pool_map(observe_fmt, jobs, 500) if r is not None]
+    fmt_recs, seen_ids = [], set()
+    for r in _pool_map(observe_fmt, jobs, 500):
+        if r is not None and r["id"] not in seen_ids:      # (two single-precision inputs can round to the same value)
+            seen_ids.add(r["id"])
+            fmt_recs.append(r)
     n_window = sum(1 for r in fmt_recs
                    if min((abs(r["n"]) % FINE_PER_MIN), FINE_PER_MIN - abs(r["n"]) % FINE_PER_MIN) <= W)
 
